@@ -117,10 +117,7 @@ func runC05(c *core.Ctx) {
 	case 2:
 		h.Extension, h.ExtensionProfile = true, 0x1000
 	case 3:
-		h.Extension, h.ExtensionProfile = true, uint16(1+t.Intn(0xBEDD))
-		if h.ExtensionProfile == 0x1000 {
-			h.ExtensionProfile = 0x1001
-		}
+		h.Extension, h.ExtensionProfile = true, drawLegacyProfile(t)
 	case 4:
 		// obtained from Unmarshal of traffic (payload non-empty so that the decode is not the subject here)
 		spec := genPacketSpec(t, 40)
